@@ -99,6 +99,11 @@ pub enum Atom {
     Const { field: Field, op: Op, c: i64 },
     /// field OP alias.field (alias = index of an earlier step)
     Ref { field: Field, op: Op, step: usize },
+    /// mixed numeric types, ordering operators only: int field x against a float literal
+    /// (c2/2, i.e. `c.0` or `c.5`), or float field f against an integer literal c2/2
+    MixedConst { field: Field, op: Op, c2: i64 },
+    /// mixed numeric types against an earlier alias: x OP alias.f  or  f OP alias.x
+    MixedRef { field: Field, op: Op, step: usize },
 }
 
 #[derive(Clone, Debug, PartialEq, Eq, Hash)]
@@ -121,6 +126,16 @@ impl Atom {
                 Field::S => format!("{} {} \"{}\"", field.name(), op.txt(), (*c as u8) as char),
             },
             Atom::Ref { field, op, step } => format!("{} {} {}.{}", field.name(), op.txt(), alias(*step), field.name()),
+            Atom::MixedConst { field, op, c2 } => match field {
+                // int field against a float literal
+                Field::X => format!("x {} {}.{}", op.txt(), c2.div_euclid(2), if c2.rem_euclid(2) == 1 { 5 } else { 0 }),
+                // float field against an int literal (c2 is even here)
+                _ => format!("f {} {}", op.txt(), c2 / 2),
+            },
+            Atom::MixedRef { field, op, step } => match field {
+                Field::X => format!("x {} {}.f", op.txt(), alias(*step)),
+                _ => format!("f {} {}.x", op.txt(), alias(*step)),
+            },
         }
     }
     /// Independent evaluation. `cap[step]` is the captured event of that step, if any.
@@ -138,10 +153,21 @@ impl Atom {
                 Some(r) => op.apply(&get(e, field), &get(r, field)),
                 None => false,
             },
+            Atom::MixedConst { field, op, c2 } => match field {
+                Field::X => op.apply(&(2 * e.x), c2),
+                _ => op.apply(&(2 * e.f2 + 1), c2),
+            },
+            Atom::MixedRef { field, op, step } => match cap.get(*step).and_then(|c| c.as_ref()) {
+                Some(r) => match field {
+                    Field::X => op.apply(&(2 * e.x), &(2 * r.f2 + 1)),
+                    _ => op.apply(&(2 * e.f2 + 1), &(2 * r.x)),
+                },
+                None => false,
+            },
         }
     }
     pub fn is_ref(&self) -> bool {
-        matches!(self, Atom::Ref { .. })
+        matches!(self, Atom::Ref { .. } | Atom::MixedRef { .. })
     }
 }
 
@@ -238,6 +264,19 @@ impl SeqProg {
 }
 
 fn gen_atom(rng: &mut Rng, step: usize, allow_ref: bool) -> Atom {
+    if MIXED_ATOMS.with(|m| m.get()) && rng.chance(1, 4) {
+        let op = *rng.pick(&[Op::Lt, Op::Le, Op::Gt, Op::Ge]);
+        let field = *rng.pick(&[Field::X, Field::F]);
+        return if allow_ref && step > 0 && rng.chance(1, 2) {
+            Atom::MixedRef { field, op, step: rng.below(step) }
+        } else {
+            let c2 = match field {
+                Field::X => rng.range(0, 7),      // 0.0, 0.5, .. 3.5
+                _ => 2 * rng.range(0, 3),          // integer literal 0..3
+            };
+            Atom::MixedConst { field, op, c2 }
+        };
+    }
     let field = *rng.pick(&[Field::X, Field::X, Field::F, Field::S]);
     let op = if field == Field::S { *rng.pick(&[Op::Eq, Op::Ne]) } else { *rng.pick(&[Op::Eq, Op::Ne, Op::Lt, Op::Le, Op::Gt, Op::Ge]) };
     if allow_ref && step > 0 && rng.chance(1, 2) {
@@ -258,6 +297,12 @@ fn gen_filt(rng: &mut Rng, step: usize, allow_ref: bool) -> Filt {
         1 => Filt::Or(gen_atom(rng, step, allow_ref), gen_atom(rng, step, allow_ref)),
         _ => Filt::One(gen_atom(rng, step, allow_ref)),
     }
+}
+
+thread_local! {
+    /// Whether gen_prog may generate mixed int/float ordering filters (C01 turns this on; the
+    /// exactness checks C02/C04 keep well-typed comparisons so that C08/C09 corner cases stay out).
+    pub static MIXED_ATOMS: std::cell::Cell<bool> = const { std::cell::Cell::new(false) };
 }
 
 pub struct GenOpts {
